@@ -13,14 +13,29 @@ ThreadPoolExecutor* pool; uint64_t ran[4]; uint64_t in_pool[4]; uint64_t worker_
 #define STOP_MARKS(n) do { pool->_running.store(false, std::memory_order_release); for (int i = 0; i < (n); ++i) pool->_global_task_queue.push<true, false, true>(ThreadPoolExecutor::Task {.type = ThreadPoolExecutor::TaskType::STOP, .function {}}); } while (0)
 #define JOIN(w) vf_assume(__atomic_load_n(&worker_done[w], __ATOMIC_ACQUIRE) == 1)
 #define WORKER(w) do { pool->keep_execute(); __atomic_store_n(&worker_done[w], 1, __ATOMIC_RELEASE); } while (0)
+// LOCAL_TASK(k): what enqueue_task does for a task submitted from inside worker 1 (its local queue), done as thread 1 in set-up
+#define LOCAL_TASK(k) pool->_local_task_queues.local().push<false, false, false>(ThreadPoolExecutor::Task {.type = ThreadPoolExecutor::TaskType::FUNCTION, .function {[] { __atomic_fetch_add(&ran[k], 1, __ATOMIC_RELAXED); in_pool[k] = pool->is_running_in() ? 1 : 0; }}})
+#define GLOBAL_STOP() pool->_global_task_queue.push<true, false, true>(ThreadPoolExecutor::Task {.type = ThreadPoolExecutor::TaskType::STOP, .function {}})
 #define BODY(n) extern "C" void vf_thread_##n() { VF_T##n; }
-extern "C" void vf_init() { pool = new ThreadPoolExecutor; pool->set_worker_number(0); pool->set_global_capacity(2); pool->set_local_capacity(VF_LOCAL); pool->start(); }
+extern "C" void vf_init() { pool = new ThreadPoolExecutor; pool->set_worker_number(0); pool->set_global_capacity(2); pool->set_local_capacity(VF_LOCAL);
+#ifdef VF_STEAL
+  pool->set_enable_work_stealing(true);
+#endif
+  pool->start();
+#ifdef VF_INIT_EXTRA
+  VF_INIT_EXTRA;
+#endif
+}
 #ifdef VF_T0
 BODY(0)
 #endif
 #ifdef VF_T1
 BODY(1)
-extern "C" void vf_prologue_1() { (void)pool->_local_task_queues.local(); }
+extern "C" void vf_prologue_1() { (void)pool->_local_task_queues.local();
+#ifdef VF_PRO1
+  VF_PRO1;
+#endif
+}
 #endif
 #ifdef VF_T2
 BODY(2)
